@@ -18,7 +18,7 @@ EXAMPLES = "/repo/examples"
 def tasks(tier, seed):
     hs = gen.hashseeds(tier, seed)
     n = 25 if tier == "quick" else 200
-    ts = [{"kind": "type", "type": t, "lo": seed * 100000, "count": n * 3 if t == "nfa2dfa" else n} for t in TYPES]
+    ts = [{"kind": "type", "type": t, "lo": seed * 100000, "count": n * 3 if t in ("nfa2dfa", "dfa_minimize", "dfa_hopfcroft") else n} for t in TYPES]
     ts.append({"kind": "examples"})
     return gen.spread(ts, hs)
 
@@ -35,6 +35,27 @@ def dfa_text(rng, alphabets=("a", "ab", "ab", "abc", "01")):
         D.Q.add("zz")
         if rng.random() < 0.5:
             D.F.add("zz")
+    return D, da.print_dfa(D)
+
+
+def cloned_dfa_text(rng):
+    """5-9 states in classes of 2-3 EQUIVALENT states: a small DFA whose every state is cloned, each clone moving to
+    a random clone of the original target (so equivalent states move among themselves, and the refinement has to
+    keep whole classes together while it splits the blocks around them)"""
+    import gambatools.dfa_algorithms as da
+    from gambatools.dfa import DFA
+    B = U.random_dfa(rng, rng.randint(2, 4), rng.choice(["ab", "abc", "abc"]), prefix="b")
+    copies = {q: ["%s%s" % (q, "xyz"[i]) for i in range(rng.randint(2, 3) if len(B.Q) < 4 else rng.randint(1, 2) + (q == B.q0))]
+              for q in sorted(B.Q)}
+    names = [c for q in sorted(copies) for c in copies[q]]
+    alias = dict(zip(names, rng.sample(["s%d" % i for i in range(len(names))], len(names))))
+    delta = {}
+    for q in sorted(B.Q):
+        for c in copies[q]:
+            for a in sorted(B.Sigma):
+                delta[alias[c], a] = alias[rng.choice(copies[B.delta[q, a]])]
+    D = DFA({alias[c] for c in names}, set(B.Sigma), delta, alias[copies[B.q0][0]],
+            {alias[c] for q in B.F for c in copies[q]})
     return D, da.print_dfa(D)
 
 
@@ -107,6 +128,8 @@ def one(typ, seed):
         return chain(typ, [f1, f2], checker, lambda a: (a, t1, t2))
     if typ in ("dfa_complement", "dfa_reverse", "dfa_minimize", "dfa_hopfcroft"):
         D, t = dfa_text(rng)
+        if typ in ("dfa_minimize", "dfa_hopfcroft") and seed % 2:
+            D, t = cloned_dfa_text(rng)
         ref["dfa"] = ab.dfa(D)
         f = chk.write(tag + ".dfa", t)
         if typ == "dfa_complement":
